@@ -1829,6 +1829,8 @@ class NotifierBasedCanStack(TransportLayer, BusOwner):
         super().__init__(*args, **kwargs)
 
     def start(self) -> None:
+        if self.started:
+            raise RuntimeError("Transport Layer is already started")
         self.buffered_reader = can.BufferedReader()
         self.notifier.add_listener(self.buffered_reader)
         super().start()
